@@ -79,6 +79,7 @@ Inductive event :=
 | EvSkip (n : name) (sfx : string)            (* submodule whose loading error is logged and dropped *)
 | EvOrphan (n : name) (sfx : string)          (* submodule whose parent package was not loaded: never handed to an agent *)
 | EvExec (n : name) (seen : list path)        (* a module body ran; sys.path as it saw it *)
+| EvRead (n : name) (sfx : string)            (* the loader read the module's file itself (read_text, utf8) *)
 | EvDone (req : string) (r : option exn).     (* a load(req) call returned / raised *)
 
 Record st := mkSt {
@@ -208,28 +209,50 @@ Definition ignored (n : name) : bool := existsb (fun pre => String.prefix pre (l
 
 Definition source_suffix (sfx : string) : bool := str_in sfx [".py"; ".pyi"].
 
-(* store_source=True: the file of a source module is read (utf8) before it is imported *)
-Definition inspect_module (w : world) (n : name) (file : option modfile) (search : list path) (s : st) : option exn * st :=
-  if ignored n then (Some ignored_raises, s)
-  else match file with
-       | Some f =>
-           match m_vfault f with
-           | Some VUnicode => if source_suffix (m_suffix f) then (Some XUnicodeDecode, s)
-                              else let (r, s1) := inspect_call w n file search s in (option_map (rewrap inspect_module_handlers) r, s1)
-           | _ => let (r, s1) := inspect_call w n file search s in (option_map (rewrap inspect_module_handlers) r, s1)
-           end
-       | None => let (r, s1) := inspect_call w n file search s in (option_map (rewrap inspect_module_handlers) r, s1)
-       end.
+Definition file_suffix (file : option modfile) : string := match file with Some f => m_suffix f | None => "" end.
+
+(* `if self.store_source and filepath and filepath.suffix in {...}`: the loader reads the file itself (utf8) *)
+Definition inspect_reads (store : bool) (file : option modfile) : bool :=
+  match file with
+  | Some f => (store || negb inspect_read_needs_store) && str_in (m_suffix f) inspect_reads_suffixes
+  | None => false
+  end.
+Definition undecodable (file : option modfile) : bool :=
+  match file with Some f => match m_vfault f with Some VUnicode => true | _ => false end | None => false end.
+
+(* the statements of _inspect_module, interpreted in the order they have in the source (Gen: inspect_module_steps) *)
+Fixpoint run_isteps (steps : list istep) (w : world) (store : bool) (n : name) (file : option modfile) (search : list path) (s : st)
+  : option exn * st :=
+  match steps with
+  | [] => (None, s)
+  | ISkipIgnored :: r => if ignored n then (Some ignored_raises, s) else run_isteps r w store n file search s
+  | IReadSource :: r =>
+      if inspect_reads store file then
+        let s0 := log_ev (EvRead n (file_suffix file)) s in
+        if undecodable file then (Some XUnicodeDecode, s0) else run_isteps r w store n file search s0
+      else run_isteps r w store n file search s
+  | IInspect :: r =>
+      let (res, s1) := inspect_call w n file search s in
+      match res with
+      | Some x => (Some (rewrap inspect_module_handlers x), s1)
+      | None => run_isteps r w store n file search s1
+      end
+  end.
+
+Definition inspect_module (w : world) (store : bool) (n : name) (file : option modfile) (search : list path) (s : st) : option exn * st :=
+  run_isteps inspect_module_steps w store n file search s.
 
 (* ------------------------------------------------------------------ GriffeLoader._load_module / _load_module_path *)
 
-Definition load_module (w : world) (allow force : bool) (search : list path) (f : modfile) (s : st) : option exn * st :=
+Definition load_module (w : world) (allow force store : bool) (search : list path) (f : modfile) (s : st) : option exn * st :=
   let n := m_name f in
   let (r, s') :=
     match agent_ladder false force allow (m_suffix f) with
     | ACreate => (None, log_ev (EvCreate n) s)
-    | AVisit => (option_map vfault_exn (m_vfault f), log_ev (EvVisit n (m_suffix f)) s)
-    | AInspect => inspect_module w n (Some f) search (log_ev (EvInspect n (m_suffix f)) s)
+    | AVisit =>
+        let s0 := log_ev (EvVisit n (m_suffix f)) s in
+        (option_map vfault_exn (m_vfault f), if visit_reads_source then log_ev (EvRead n (m_suffix f)) s0 else s0)
+    | AInspect => inspect_module w store n (Some f) search (log_ev (EvInspect n (m_suffix f)) s)
     | ARaise x => (Some x, s)
     end in
   (option_map (rewrap load_module_handlers) r, s').
@@ -237,31 +260,31 @@ Definition load_module (w : world) (allow force : bool) (search : list path) (f 
 (* _load_submodules: a LoadingError is logged and the submodule dropped; anything else propagates.
    _get_or_create_parent_module: under a regular package a submodule whose parent package was not loaded is not
    importable and is skipped without being handed to any agent (under a namespace package parents are created). *)
-Fixpoint load_subs (w : world) (allow force : bool) (search : list path) (nsroot : bool) (subs : list modfile)
+Fixpoint load_subs (w : world) (allow force store : bool) (search : list path) (nsroot : bool) (subs : list modfile)
          (loaded : list name) (s : st) : option exn * st :=
   match subs with
   | [] => (None, s)
   | f :: r =>
       if negb nsroot && negb (mem_name (removelast (m_name f)) loaded)
-      then load_subs w allow force search nsroot r loaded (log_ev (EvOrphan (m_name f) (m_suffix f)) s)
+      then load_subs w allow force store search nsroot r loaded (log_ev (EvOrphan (m_name f) (m_suffix f)) s)
       else
-      match load_module w allow force search f s with
-      | (None, s1) => load_subs w allow force search nsroot r (m_name f :: loaded) s1
+      match load_module w allow force store search f s with
+      | (None, s1) => load_subs w allow force store search nsroot r (m_name f :: loaded) s1
       | (Some x, s1) =>
           if caught_by load_submodule_catches x
-          then load_subs w allow force search nsroot r loaded (log_ev (EvSkip (m_name f) (m_suffix f)) s1)
+          then load_subs w allow force store search nsroot r loaded (log_ev (EvSkip (m_name f) (m_suffix f)) s1)
           else (Some x, s1)
       end
   end.
 
 (* _load_package.  When the package has stubs, expand_wildcards(top_module) runs (external=None) before the stubs are
    loaded and may re-enter load for a private sibling package: [np] is that nested phase. *)
-Definition load_package_with (np : st -> option exn * st) (w : world) (allow force submodules : bool) (search : list path)
+Definition load_package_with (np : st -> option exn * st) (w : world) (allow force store submodules : bool) (search : list path)
            (top : modfile) (subs : list modfile) (stubs : option (modfile * list modfile)) (s : st) : option exn * st :=
-  match load_module w allow force search top s with
+  match load_module w allow force store search top s with
   | (Some x, s1) => (Some x, s1)
   | (None, s1) =>
-      match (if submodules then load_subs w allow force search false subs [m_name top] s1 else (None, s1)) with
+      match (if recurse_submodules submodules then load_subs w allow force store search false subs [m_name top] s1 else (None, s1)) with
       | (Some x, s2) => (Some x, s2)
       | (None, s2) =>
           match stubs with
@@ -270,9 +293,10 @@ Definition load_package_with (np : st -> option exn * st) (w : world) (allow for
               match np s2 with
               | (Some x, s2') => (Some x, s2')
               | (None, s2') =>
-                  match load_module w allow force search st_top s2' with
+                  match load_module w allow force store search st_top s2' with
                   | (Some x, s3) => (Some x, s3)
-                  | (None, s3) => if submodules then load_subs w allow force search false st_subs [m_name st_top] s3 else (None, s3)
+                  | (None, s3) =>
+                      if recurse_submodules submodules then load_subs w allow force store search false st_subs [m_name st_top] s3 else (None, s3)
                   end
               end
           end
@@ -282,52 +306,101 @@ Definition load_package_with (np : st -> option exn * st) (w : world) (allow for
 Definition no_nested (s : st) : option exn * st := (None, s).
 
 (* GriffeLoader.load for one object spec (the top-level package name); its outcome is recorded in the log *)
-Definition load_one_with (np : st -> option exn * st) (w : world) (allow force submodules : bool) (search : list path)
+Definition load_one_with (np : st -> option exn * st) (w : world) (allow force store submodules : bool) (search : list path)
            (req : string) (s : st) : option exn * st :=
   let (r, s') :=
     match find_pkg (w_find w) req with
     | FFinderError e => (Some (ferr_exn e), s)
-    | FPkg top subs stubs => load_package_with np w allow force submodules search top subs stubs s
+    | FPkg top subs stubs => load_package_with np w allow force store submodules search top subs stubs s
     | FNs n subs =>
         let s1 := log_ev (EvCreate n) s in
-        if submodules then load_subs w allow force search true subs [n] s1 else (None, s1)
+        if recurse_submodules submodules then load_subs w allow force store search true subs [n] s1 else (None, s1)
     | FMissing via =>
         if not_found_reraises allow force then (Some XModuleNotFound, s)
         else match dynamic_import w [req] search s with
              | (inl x, s1) => (Some x, s1)
              | (inr _, s1) =>
                  match via with
-                 | None => inspect_module w [req] None search (log_ev (EvInspect [req] "") s1)
-                 | Some (top, subs) => load_package_with np w allow force submodules search top subs None s1
+                 | None => inspect_module w store [req] None search (log_ev (EvInspect [req] "") s1)
+                 | Some (top, subs) => load_package_with np w allow force store submodules search top subs None s1
                  end
              end
     end in
   (r, log_ev (EvDone req r) s').
 
-Definition load_one := load_one_with no_nested.
+(* ------------------------------------------------------------------ re-entrant loads, fully nested *)
 
 (* resolve_aliases / expand_wildcards call self.load(package, try_relative_path=False) on the same loader and swallow
-   ImportError / LoadingError; which packages they ask for is left arbitrary *)
-Fixpoint reentries (w : world) (allow force : bool) (search : list path) (reqs : list string) (s : st) : option exn * st :=
-  match reqs with
-  | [] => (None, s)
-  | r :: rs =>
-      match load_one w allow force true search r s with
-      | (None, s1) => reentries w allow force search rs s1
-      | (Some x, s1) => if caught_by reentry_catches x then reentries w allow force search rs s1 else (Some x, s1)
+   ImportError / LoadingError.  Which packages they ask for is left arbitrary, and so is the nesting: a re-entered package
+   with stubs runs its own wildcard expansion inside _load_package, which may re-enter load again, and so on.
+   A request tree: the package asked for, and the requests made by the nested phase of that very load. *)
+Inductive rtree := RNode (req : string) (kids : list rtree).
+
+Definition reentries_with (load : rtree -> st -> option exn * st) : list rtree -> st -> option exn * st :=
+  fix go (ks : list rtree) (s : st) {struct ks} : option exn * st :=
+    match ks with
+    | [] => (None, s)
+    | k :: ks' =>
+        match load k s with
+        | (None, s1) => go ks' s1
+        | (Some x, s1) => if caught_by reentry_catches x then go ks' s1 else (Some x, s1)
+        end
+    end.
+
+Fixpoint load_tree (w : world) (allow force store submodules : bool) (search : list path) (t : rtree) (s : st) {struct t}
+  : option exn * st :=
+  match t with
+  | RNode req kids =>
+      load_one_with (reentries_with (load_tree w allow force store true search) kids) w allow force store submodules search req s
+  end.
+
+Definition reentries (w : world) (allow force store : bool) (search : list path) : list rtree -> st -> option exn * st :=
+  reentries_with (load_tree w allow force store true search).
+
+(* one loader: an optional root load (with the requests nested in it), then the re-entries of alias resolution *)
+Definition session (w : world) (allow force store submodules : bool) (search : list path) (root : option rtree) (later : list rtree) (s : st)
+  : option exn * st :=
+  match root with
+  | None => reentries w allow force store search later s
+  | Some t =>
+      match load_tree w allow force store submodules search t s with
+      | (Some x, s1) => (Some x, s1)
+      | (None, s1) => reentries w allow force store search later s1
       end
   end.
 
-(* the root load, with the packages its nested wildcard expansion asks for *)
-Definition load_root (w : world) (allow force submodules : bool) (search : list path) (nested : list string) (root : string) (s : st)
-  : option exn * st :=
-  load_one_with (reentries w allow force search nested) w allow force submodules search root s.
+(* ------------------------------------------------------------------ the finder's search paths, the public entry points *)
 
-Definition session (w : world) (allow force submodules : bool) (search : list path) (nested : list string) (root : string)
-           (reqs : list string) (s : st) : option exn * st :=
-  match load_root w allow force submodules search nested root s with
-  | (Some x, s1) => (Some x, s1)
-  | (None, s1) => reentries w allow force search reqs s1
+(* ModuleFinder.__init__ / append_search_path: `search_paths or sys.path`, first occurrence of each path kept
+   (paths are compared after resolution; the harness hands resolved paths in) *)
+Fixpoint dedup (l seen : list path) : list path :=
+  match l with
+  | [] => []
+  | p :: r => if mem_path p seen then dedup r seen else p :: dedup r (p :: seen)
+  end.
+Definition finder_paths (given syspath : list path) : list path :=
+  dedup (if is_nil given then (if finder_defaults_to_sys_path then syspath else []) else given) [].
+
+(* one loader built by an entry point: [ph_front] is what find_spec inserts ahead of the search paths when the object
+   is given as a file path outside them (finder._top_module_name; C14's subject, input here) *)
+Record phase := mkPhase {
+  ph_entry : entry; ph_world : world; ph_given : list path; ph_front : list path; ph_submodules : bool;
+  ph_root : option rtree; ph_later : list rtree }.
+
+Definition phase_search (ph : phase) (s : st) : list path := ph_front ph ++ finder_paths (ph_given ph) (heap s (cur s)).
+
+(* the loads of one call of an entry point (`griffe dump a b`: one per package; `griffe check`: old and new), each with
+   the options as that entry point forwards them; what the entry point catches between loads comes from Gen *)
+Fixpoint run_phases (allow force store : bool) (phs : list phase) (s : st) : option exn * st :=
+  match phs with
+  | [] => (None, s)
+  | ph :: r =>
+      let ep := ph_entry ph in
+      match session (ph_world ph) (entry_allow ep allow) (entry_force ep force) (entry_store ep store)
+                    (entry_submodules ep (ph_submodules ph)) (phase_search ph s) (ph_root ph) (ph_later ph) s with
+      | (None, s1) => run_phases allow force store r s1
+      | (Some x, s1) => if caught_by (entry_catches ep) x then run_phases allow force store r s1 else (Some x, s1)
+      end
   end.
 
 (* ------------------------------------------------------------------ observations used by the theorems *)
@@ -338,6 +411,8 @@ Definition executions (s : st) : list event := filter is_exec (log s).
 Definition inspections (s : st) : list event := filter is_inspect (log s).
 Definition wf (s : st) : Prop := cur s < next s.
 Definition init_state (sp : list path) : st := mkSt 0 1 (fun _ => sp) [] [].
+(* every package asked for in a request tree *)
+Fixpoint tree_reqs (t : rtree) : list string := match t with RNode req kids => req :: flat_map tree_reqs kids end.
 
 (* ------------------------------------------------------------------ codecs *)
 
@@ -423,6 +498,7 @@ Definition enc_event (e : event) : sexp :=
   | EvSkip n sfx => SList [SStr "skip"; enc_path n; SStr sfx]
   | EvOrphan n sfx => SList [SStr "orphan"; enc_path n; SStr sfx]
   | EvExec n seen => SList [SStr "exec"; enc_path n; SList (map enc_path seen)]
+  | EvRead n sfx => SList [SStr "read"; enc_path n; SStr sfx]
   | EvDone req r => SList [SStr "done"; SStr req; SStr (match r with None => "ok" | Some x => exn_name x end)]
   end.
 Definition enc_result (r : option exn) : sexp := match r with None => SStr "ok" | Some x => SStr (exn_name x) end.
@@ -436,15 +512,58 @@ Definition enc_outcome (sp : list path) (s0 : st) (r : option exn) (s : st) : se
 
 Definition or_bad (o : option sexp) : sexp := match o with Some x => x | None => bad_input end.
 
+Fixpoint dec_rtree_fuel (fuel : nat) (x : sexp) : option rtree :=
+  match fuel with
+  | 0 => None
+  | S k =>
+      match x with
+      | SList [SStr req; SList kids] =>
+          do kids' <- (fix go (l : list sexp) : option (list rtree) :=
+                         match l with
+                         | [] => Some []
+                         | y :: r => do y' <- dec_rtree_fuel k y; do r' <- go r; Some (y' :: r')
+                         end) kids;
+          Some (RNode req kids')
+      | _ => None
+      end
+  end.
+(* request trees are as deep as the nesting of loads observed: never more than a handful of levels *)
+Definition dec_rtree : sexp -> option rtree := dec_rtree_fuel 64.
+
+Definition dec_entry (x : sexp) : option entry :=
+  match x with SStr s => find (fun e => String.eqb (entry_name e) s) all_entries | _ => None end.
+
+Definition dec_phase (x : sexp) : option phase :=
+  match x with
+  | SList [ep; world; given; front; sm; root; later] =>
+      do ep' <- dec_entry ep; do w <- dec_world world; do g <- as_list_of dec_path given; do fr <- as_list_of dec_path front;
+      do sm' <- as_bool sm; do rt <- as_opt dec_rtree root; do lt <- as_list_of dec_rtree later;
+      Some (mkPhase ep' w g fr sm' rt lt)
+  | _ => None
+  end.
+
 Definition run_C15 (x : sexp) : sexp :=
   match x with
-  | SList [SStr "session"; allow; force; submodules; search; world; nested; SStr root; reqs; syspath] =>
-      or_bad (do a <- as_bool allow; do f <- as_bool force; do sm <- as_bool submodules; do sp <- as_list_of dec_path search;
-              do w <- dec_world world; do ne <- as_list_of as_str nested; do rq <- as_list_of as_str reqs;
+  | SList [SStr "session"; allow; force; store; submodules; search; world; root; later; syspath] =>
+      or_bad (do a <- as_bool allow; do f <- as_bool force; do st' <- as_bool store; do sm <- as_bool submodules;
+              do sp <- as_list_of dec_path search; do w <- dec_world world; do rt <- as_opt dec_rtree root; do lt <- as_list_of dec_rtree later;
               do ip <- as_list_of dec_path syspath;
               let s0 := init_state ip in
-              let (r, s) := session w a f sm sp ne root rq s0 in
+              let (r, s) := session w a f st' sm sp rt lt s0 in
               Some (enc_outcome ip s0 r s))
+  | SList [SStr "entry"; allow; force; store; phases; syspath] =>
+      (* a call of a public entry point: the loaders it builds, with the options as it forwards them *)
+      or_bad (do a <- as_bool allow; do f <- as_bool force; do st' <- as_bool store; do phs <- as_list_of dec_phase phases;
+              do ip <- as_list_of dec_path syspath;
+              let s0 := init_state ip in
+              let (r, s) := run_phases a f st' phs s0 in
+              Some (enc_outcome ip s0 r s))
+  | SList [SStr "finder"; given; syspath] =>
+      or_bad (do g <- as_list_of dec_path given; do ip <- as_list_of dec_path syspath; Some (SList (map enc_path (finder_paths g ip))))
+  | SList [SStr "entry_flags"; ep; allow; force; store; submodules] =>
+      or_bad (do ep' <- dec_entry ep; do a <- as_bool allow; do f <- as_bool force; do st' <- as_bool store; do sm <- as_bool submodules;
+              Some (SList [of_bool (entry_allow ep' a); of_bool (entry_force ep' f); of_bool (entry_store ep' st');
+                           of_bool (entry_submodules ep' sm); SList (map SStr (entry_catches ep'))]))
   | SList [SStr "inspect"; search; world; n; file; syspath] =>
       (* griffe.inspect(name, filepath=..., import_paths=search) called directly *)
       or_bad (do sp <- as_list_of dec_path search; do w <- dec_world world; do n' <- dec_name n; do f <- as_opt dec_mod file;
@@ -473,6 +592,9 @@ Definition run_C15 (x : sexp) : sexp :=
   | SList [SStr "tables"] =>
       SList [SList (map SStr load_submodule_catches); SList (map SStr reentry_catches); SList (map SStr import_attempt_catches);
              SList (map SStr getattr_catches); of_bool sys_path_noop_when_empty; of_bool sys_path_restores_on_exception;
-             SList (map SStr ignored_prefixes)]
+             SList (map SStr ignored_prefixes);
+             SList (map (fun i => SStr (match i with ISkipIgnored => "ignored" | IReadSource => "read" | IInspect => "inspect" end)) inspect_module_steps);
+             SList (map SStr inspect_reads_suffixes); of_bool inspect_read_needs_store; of_bool visit_reads_source;
+             of_bool finder_defaults_to_sys_path]
   | _ => bad_input
   end.
